@@ -66,7 +66,7 @@ func init() {
 		case "C08":
 			mods = []string{"Verif.Properties.C08"}
 		case "C09":
-			mods = []string{"Verif.Properties.C06", "Verif.Properties.C20", "Verif.Properties.C03"}
+			mods = []string{"Verif.Properties.C09", "Verif.Properties.C06", "Verif.Properties.C20", "Verif.Properties.C03"}
 		case "C10":
 			mods = []string{"Verif.Properties.C10"}
 			factsOK = true
